@@ -4,8 +4,11 @@ import (
 	"fmt"
 	"os"
 	"strings"
+	"sync"
 	"testing"
 	"time"
+
+	"github.com/multiformats/go-multihash"
 
 	"github.com/ipld/go-storethehash/store"
 	"github.com/ipld/go-storethehash/store/vhook"
@@ -69,6 +72,12 @@ type C12Case struct {
 	Writers  [][]Op    `json:"writers"`
 	Flushers []int     `json:"flushers"` // number of Flush calls per explicit flush task
 	Sched    SchedSpec `json:"sched"`
+	// Free: no scheduler. FreeWriters goroutines are released at once, each
+	// issuing one Put, FreeRounds times; windows that have no named point
+	// inside them are only reachable this way.
+	Free        bool `json:"free,omitempty"`
+	FreeWriters int  `json:"free_writers,omitempty"`
+	FreeRounds  int  `json:"free_rounds,omitempty"`
 }
 
 const c12Rule = "1-3 writer tasks (Put/Remove) on a store with BurstRate(0) and a pinned tiny flush rate (verif-tagged setter) so that every write enters the waiting path, the real flusher goroutine adopted as a scheduled task at its first named point, 0-2 explicit Flush tasks; the cooperative scheduler parks tasks at the named points in flushTick (measured, decided, registered, signalled), Flush and run and follows a generated schedule (single long preemption at a drawn point, PCT-style priorities, random walk); " +
@@ -109,6 +118,108 @@ func genC12(t *rapid.T) C12Case {
 	return c
 }
 
+// runC12Free: rounds of simultaneously released rate-limited writers on a
+// started store; after each round every writer must have returned, judged by
+// the same state-based closure.
+func runC12Free(c C12Case) (st c12Stats, v *Violation) {
+	dir := newScratch("bpf")
+	defer os.RemoveAll(dir)
+	s, err := store.OpenStore(bg, store.MultihashPrimary, dir+"/"+dataBase, dir+"/"+idxBase, false,
+		store.IndexBitSize(8), store.IndexFileSize(1<<20), store.PrimaryFileSize(1<<20),
+		store.GCInterval(0), store.SyncInterval(time.Hour), store.BurstRate(0))
+	if err != nil {
+		panic(infraError{err})
+	}
+	s.VerifPinFlushRate(1e-9)
+	defer vhook.PinRate(0)
+	baseline := map[int64]bool{}
+	for _, g := range moduleGoroutines() {
+		baseline[g.id] = true
+	}
+	s.Start()
+	stuck := false
+	for r := 0; r < c.FreeRounds && v == nil; r++ {
+		start := make(chan struct{})
+		var done sync.WaitGroup
+		for w := 0; w < c.FreeWriters; w++ {
+			w := w
+			done.Add(1)
+			go func() {
+				defer done.Done()
+				d := []byte{byte(r), byte(r >> 8), byte(w), 0x55, byte(r >> 16), 1, 2, 3}
+				key, _ := multihash.Encode(d, multihash.IDENTITY)
+				<-start
+				s.Put(key, []byte{byte(w), byte(r)})
+			}()
+		}
+		fin := make(chan struct{})
+		go func() { done.Wait(); close(fin) }()
+		close(start)
+		select {
+		case <-fin:
+			continue
+		case <-time.After(300 * time.Millisecond):
+		}
+		// Closure: three explicit flushes, then judge by state.
+		for i := 0; i < 3; i++ {
+			s.Flush()
+		}
+		deadline := time.Now().Add(8 * time.Second)
+		for v == nil {
+			select {
+			case <-fin:
+			case <-time.After(30 * time.Millisecond):
+			}
+			select {
+			case <-fin:
+			default:
+				waiting, flusherIdle, flushing := 0, false, false
+				for _, g := range moduleGoroutines() {
+					if baseline[g.id] {
+						continue
+					}
+					switch {
+					case strings.Contains(g.stack, ".(*Store).flushTick") && g.state == "chan receive":
+						waiting++
+					case strings.Contains(g.stack, ".(*Store).run") && g.state == "select" && !strings.Contains(g.stack, ".(*Store).Flush"):
+						flusherIdle = true
+					case strings.Contains(g.stack, ".(*Store).Flush") || strings.Contains(g.stack, ".(*Store).commit"):
+						flushing = true
+					}
+				}
+				if waiting > 0 && flusherIdle && !flushing {
+					time.Sleep(60 * time.Millisecond)
+					select {
+					case <-fin:
+					default:
+						v = viol("writer-never-released|closure|lost-wake-up", r, "free-running round %d with %d simultaneously released writers: %d writer(s) still wait for the flush notice although three explicit Flush() calls completed afterwards, the flusher is idle and no flush is in progress", r, c.FreeWriters, waiting)
+						stuck = true
+					}
+				} else if time.Now().After(deadline) {
+					st.skipped = true
+					stuck = true
+					v = nil
+				}
+				if st.skipped {
+					break
+				}
+				continue
+			}
+			break
+		}
+		if st.skipped {
+			break
+		}
+	}
+	st.windowHit = true
+	if stuck {
+		go s.Close()
+	} else {
+		s.Close()
+	}
+	return st, v
+}
+
 type c12Stats struct {
 	windowHit  bool
 	allDone    bool
@@ -118,6 +229,9 @@ type c12Stats struct {
 }
 
 func runC12(c C12Case) (st c12Stats, v *Violation) {
+	if c.Free {
+		return runC12Free(c)
+	}
 	dir := newScratch("bp")
 	defer os.RemoveAll(dir)
 	cfg := Config{Primary: store.MultihashPrimary, Bits: 8, IdxSize: 1024, PrimSize: 1024, FileCache: 8}
@@ -345,6 +459,25 @@ func TestC12(t *testing.T) {
 			cl = append(cl, "foreign-error: "+st.foreignErr)
 		}
 		ev.Record(c, st.windowHit, cl...)
+		if v != nil && ev.Report(v, c) {
+			rt.Fatalf("%v", v)
+		}
+	})
+	// Free-running sub-campaign: windows without a named point inside.
+	setRapidChecks(budget(160, 300))
+	rapid.Check(t, func(rt *rapid.T) {
+		if pastDeadline() {
+			ev.Skip()
+			return
+		}
+		c := C12Case{Free: true, FreeWriters: rapid.IntRange(2, 32).Draw(rt, "writers"), FreeRounds: rapid.IntRange(10, 40).Draw(rt, "rounds")}
+		st, v := runC12(c)
+		cl := []string{"free-running"}
+		if st.skipped {
+			cl = append(cl, "inconclusive-timeout")
+		}
+		ev.Record(c, c.FreeWriters >= 2, cl...)
+		ev.Class("free-running-rounds", c.FreeRounds)
 		if v != nil && ev.Report(v, c) {
 			rt.Fatalf("%v", v)
 		}
